@@ -371,5 +371,183 @@ func init() {
 			e.fail("IsAllowLentResource: unexpected shape")
 		}
 		fmt.Fprintf(&e.out, "def allowLentRule : String := %s\n", leanStr(rule))
+		e.c02NodeFacts(dir)
 	}
+}
+
+// c02NodeFacts: the node event handlers of GroupQuotaManager — which lists are compared / subtracted / handed to
+// UpdateClusterTotalResource, in source order, with local aliases resolved, parameters written $0,$1 and the
+// receiver written recv; and how updateClusterTotalResourceNoLock folds a delta into the total.
+func (e *ext) c02NodeFacts(dir string) {
+	interesting := map[string]bool{"UpdateClusterTotalResource": true, "Subtract": true, "SubtractWithNonNegativeResult": true, "Equals": true, "delete": true,
+		"Add": true, "IsZero": true, "setClusterTotalResource": true}
+	type fn struct {
+		fd     *ast.FuncDecl
+		names  map[string]string   // parameter / receiver -> canonical
+		single map[string]ast.Expr // local assigned exactly once -> its right-hand side
+	}
+	prep := func(name string) *fn {
+		fd := e.funcDecl(dir, "GroupQuotaManager", name)
+		if fd == nil || fd.Body == nil {
+			e.fail("GroupQuotaManager.%s not found", name)
+			return nil
+		}
+		f := &fn{fd: fd, names: map[string]string{}, single: map[string]ast.Expr{}}
+		if len(fd.Recv.List[0].Names) > 0 {
+			f.names[fd.Recv.List[0].Names[0].Name] = "recv"
+		}
+		i := 0
+		for _, p := range fd.Type.Params.List {
+			for _, n := range p.Names {
+				f.names[n.Name] = fmt.Sprintf("$%d", i)
+				i++
+			}
+		}
+		count := map[string]int{}
+		ast.Inspect(fd.Body, func(n ast.Node) bool {
+			switch x := n.(type) {
+			case *ast.AssignStmt:
+				for k, l := range x.Lhs {
+					if id, ok := l.(*ast.Ident); ok {
+						count[id.Name]++
+						if len(x.Lhs) == len(x.Rhs) {
+							f.single[id.Name] = x.Rhs[k]
+						}
+					}
+				}
+			case *ast.DeclStmt:
+				if gd, ok := x.Decl.(*ast.GenDecl); ok {
+					for _, sp := range gd.Specs {
+						if vs, ok := sp.(*ast.ValueSpec); ok {
+							for _, id := range vs.Names {
+								count[id.Name] += 2 // `var x T` + later assignments: never resolved
+							}
+						}
+					}
+				}
+			case *ast.RangeStmt:
+				for _, l := range []ast.Expr{x.Key, x.Value} {
+					if id, ok := l.(*ast.Ident); ok {
+						count[id.Name] += 2
+					}
+				}
+			}
+			return true
+		})
+		for k, c := range count {
+			if c != 1 {
+				delete(f.single, k)
+			}
+		}
+		return f
+	}
+	var res func(f *fn, x ast.Expr, depth int) string
+	res = func(f *fn, x ast.Expr, depth int) string {
+		switch y := x.(type) {
+		case *ast.Ident:
+			if c, ok := f.names[y.Name]; ok {
+				return c
+			}
+			if rhs, ok := f.single[y.Name]; ok && depth < 6 {
+				return res(f, rhs, depth+1)
+			}
+			return y.Name
+		case *ast.SelectorExpr:
+			if id, ok := y.X.(*ast.Ident); ok {
+				if _, isParam := f.names[id.Name]; !isParam {
+					if _, isLocal := f.single[id.Name]; !isLocal {
+						return y.Sel.Name // package-qualified: quotav1.Subtract -> Subtract
+					}
+				}
+			}
+			return res(f, y.X, depth) + "." + y.Sel.Name
+		case *ast.CallExpr:
+			s := res(f, y.Fun, depth) + "("
+			for i, a := range y.Args {
+				if i > 0 {
+					s += ", "
+				}
+				s += res(f, a, depth)
+			}
+			return s + ")"
+		case *ast.UnaryExpr:
+			return y.Op.String() + res(f, y.X, depth)
+		case *ast.IndexExpr:
+			return res(f, y.X, depth) + "[" + res(f, y.Index, depth) + "]"
+		}
+		return c02Src(e, x)
+	}
+	calls := func(f *fn) []string {
+		var out []string
+		if f == nil {
+			return out
+		}
+		ast.Inspect(f.fd.Body, func(n ast.Node) bool {
+			switch x := n.(type) {
+			case *ast.CallExpr:
+				name := ""
+				switch fx := x.Fun.(type) {
+				case *ast.SelectorExpr:
+					name = fx.Sel.Name
+				case *ast.Ident:
+					name = fx.Name
+				}
+				if interesting[name] {
+					s := res(f, x, 0)
+					if name == "UpdateClusterTotalResource" || name == "setClusterTotalResource" {
+						s = name + s[len(res(f, x.Fun, 0)):] // drop the receiver
+					}
+					out = append(out, s)
+				}
+			case *ast.RangeStmt: // a hand-written loop over one list's keys
+				out = append(out, "range "+res(f, x.X, 0))
+			}
+			return true
+		})
+		return out
+	}
+	emit := func(lean string, xs []string) {
+		fmt.Fprintf(&e.out, "\ndef %s : List String := [", lean)
+		for i, x := range xs {
+			if i > 0 {
+				fmt.Fprintf(&e.out, ",")
+			}
+			fmt.Fprintf(&e.out, "\n  %s", leanStr(x))
+		}
+		fmt.Fprintf(&e.out, "]\n")
+	}
+	emit("onNodeAddCalls", calls(prep("OnNodeAdd")))
+	emit("onNodeUpdateCalls", calls(prep("OnNodeUpdate")))
+	emit("onNodeDeleteCalls", calls(prep("OnNodeDelete")))
+	// updateClusterTotalResourceNoLock: what is assigned to recv.totalResource, and the guard of the push
+	var assign, guard []string
+	if f := prep("updateClusterTotalResourceNoLock"); f != nil {
+		ast.Inspect(f.fd.Body, func(n ast.Node) bool {
+			switch x := n.(type) {
+			case *ast.AssignStmt:
+				if len(x.Lhs) == 1 && len(x.Rhs) == 1 && res(f, x.Lhs[0], 0) == "recv.totalResource" {
+					saved := f.single
+					f.single = map[string]ast.Expr{} // the right-hand side as written
+					assign = append(assign, res(f, x.Rhs[0], 0))
+					f.single = saved
+				}
+			case *ast.IfStmt:
+				pushes := false
+				ast.Inspect(x.Body, func(m ast.Node) bool {
+					if ce, ok := m.(*ast.CallExpr); ok {
+						if se, ok := ce.Fun.(*ast.SelectorExpr); ok && se.Sel.Name == "setClusterTotalResource" {
+							pushes = true
+						}
+					}
+					return true
+				})
+				if pushes {
+					guard = append(guard, res(f, x.Cond, 0))
+				}
+			}
+			return true
+		})
+	}
+	emit("clusterTotalAssign", assign)
+	emit("clusterTotalPushGuard", guard)
 }
